@@ -478,7 +478,7 @@ var edgeValues = [9][]string{
 var edgeStarts = []string{
 	"http://h/", "http://u:p@h:81/a/b?q#f", "http://:secret@h/p", "http://u@h/", "https://h:444/", "http://h/?#", "http://h/?",
 	"http://1.2.3.4/x", "http://[::1]:81/", "ws://localhost/%2F", "ftp://h/a/../b",
-	"file:///C:/x", "file://h/x", "file:///", "file:///C|/x", "file://localhost/x?q",
+	"file:///C:/x", "file://h/x", "file:///", "file:///C|/x", "file://localhost/x?q", "http://h/C|/d/f", "http://h/c:/x/../..",
 	"sc://h/p?q#f", "sc://h", "sc://", "sc:/x", "sc:/.//x", "sc://u:p@h:1/", "sc:///x", "sc://h?q", "sc://:pw@h/",
 	"data:text  ?a=b#frag", "sc:opaque  ?#x", "mailto:me@example.net", "sc:opaque  ", "sc:opaque  #f", "sc:o  ?q", "about:blank",
 	"javascript:alert(1)  ?  #  ", "a:b", "a:", "a:/", "a://", "a:?", "a:#",
@@ -524,16 +524,45 @@ func famEdgeHist(c *Ctx, cfg *Cfg, fields []int, fam string, withSP bool,
 	each func(d *Driver, cs histCase, h *implHist, steps []Step, start Obs)) {
 	ops := allEdgeOps()
 	n := len(ops)
-	total := nEdgeStarts() * (n + n*n)
+	per := n + n*n + 9 + 9*n
+	total := nEdgeStarts() * per
+	// selfValue: what the getter of setter w returns after the given calls (a setter called with its own getter's value
+	// re-runs its algorithm on a state only setters can reach, e.g. a file URL with a C| segment)
+	selfValue := func(base *string, s string, first []Op, w int) (string, bool) {
+		u, err := implParseURL(cfg.Parser, base, s)
+		if err != nil || u == nil {
+			return "", false
+		}
+		for _, o := range first {
+			applySetter(u, o.W, o.A)
+		}
+		return []string{u.Protocol(), u.Username(), u.Password(), u.Host(), u.Hostname(), u.Port(), u.Pathname(), u.Search(), u.Hash()}[w], true
+	}
 	c.Pool.Run(total, func(d *Driver, i int) {
-		base, s := edgeStart(i / (n + n*n))
-		k := i % (n + n*n)
+		base, s := edgeStart(i / per)
+		k := i % per
 		var hops []Op
-		if k < n {
+		switch {
+		case k < n:
 			hops = []Op{{K: "s", W: ops[k].w, A: ops[k].v}}
-		} else {
+		case k < n+n*n:
 			k -= n
 			hops = []Op{{K: "s", W: ops[k/n].w, A: ops[k/n].v}, {K: "s", W: ops[k%n].w, A: ops[k%n].v}}
+		case k < n+n*n+9:
+			w := k - n - n*n
+			v, ok := selfValue(base, s, nil, w)
+			if !ok {
+				return
+			}
+			hops = []Op{{K: "s", W: w, A: v}}
+		default:
+			k -= n + n*n + 9
+			first := []Op{{K: "s", W: ops[k/9].w, A: ops[k/9].v}}
+			v, ok := selfValue(base, s, first, k%9)
+			if !ok {
+				return
+			}
+			hops = append(first, Op{K: "s", W: k % 9, A: v})
 		}
 		if withSP {
 			switch i % 3 {
